@@ -257,6 +257,19 @@ def probes(model, part, case, touched):
                     extra = sorted(set(out) - {"type", "id", "created", "modified", "spec_version", "prop", "extensions"})
                     if extra or out.get("prop") != "v":
                         fail("C19/round-trip/%s" % cat, "an object of a registered custom type does not serialize to what was parsed", "prop=v, no other properties", out, [cat, name, ver])
+                    ext_id = getattr(cls, "with_extension", None)
+                    if ext_id and ver == "2.1":
+                        # a type defined through an extension definition: every object of it names that definition (extension_type new-sdo / new-sco), parsed or constructed
+                        want_t = "new-sdo" if cat == "objects" else "new-sco"
+                        try:
+                            built = json.loads(cls(prop="v").serialize())
+                        except Exception as e:
+                            built = {"error": "%s: %s" % (type(e).__name__, str(e)[:100])}
+                        for how, o2 in (("parsed", out), ("constructed", built)):
+                            e2 = o2.get("extensions") if isinstance(o2.get("extensions"), dict) else {}
+                            if not isinstance(e2.get(ext_id), dict) or e2[ext_id].get("extension_type") != want_t:
+                                fail("C19/extension-defined-type-without-its-extension/%s/%s" % (cat, how), "an object of a type registered with extension_name does not carry that extension definition",
+                                     {ext_id: {"extension_type": want_t}}, o2.get("extensions", o2.get("error")), [cat, name, ver])
             else:
                 # toplevel extension-definitions and unregistered extension-definition keys are not custom content by the library's documented choice
                 lenient = cat == "extensions" and name.startswith("extension-definition--")
